@@ -85,8 +85,9 @@ def collect(p: int, n: int, x: int) -> bool:
     import xv.defs.sched as U
     from experimaestro import RunMode
 
-    if not (-(2**63) <= x < 2**63):
-        return True
+    # the job identifiers are real sha256 digests here: the hashed values must
+    # be concrete (selectors only: symbolic_data is false for this harness)
+    x = 7 + pick(x, 3)
     sched.reset(rt.scratch_dir())
     pos = POSITIONS[pick(p, len(POSITIONS))]
     nup = pick(n, 2) + 1
